@@ -17,7 +17,7 @@ import threading
 import common
 import actlib
 
-T = 20   # seconds a forced step may wait for its predecessor
+T = 40   # seconds a forced step may wait for its predecessor
 
 
 class Recorder(object):
